@@ -104,13 +104,51 @@ theorem Fresh.name_of_id {n : Node} (h : Fresh n) {t : Tok} (ht : n.tok = some t
 
 /-! ### state predicates -/
 
-/-- the current node, if there is one, is fresh -/
-def Inv (p : P) : Prop := ∀ n, p.node = some n → Fresh n
-/-- … and there is one -/
-def Cur (p : P) : Prop := Inv p ∧ ∃ n, p.node = some n
+/-- the six error kinds of parser/parsererror.go -/
+def sixKinds (k : String) : Prop :=
+  k = "Unexpected end" ∨ k = "Lexical error" ∨ k = "Unknown term" ∨ k = "Term cannot start an expression" ∨
+  k = "Term can only start an expression" ∨ k = "Unexpected term"
 
-/-- acceptable errors of the safety proof: a parser error or the fuel marker, never a nil dereference -/
-def NoPanic (e : Err) : Prop := e ≠ .panic
+/-- where a parser error points: at a token of the input `ts`, or nowhere (line 0, pos 0) for the
+    `Unexpected end` which `p.next()` builds from the zero token after the stream is exhausted -/
+def EPos (ts : List Tok) : Err → Prop
+  | .perr k l c => sixKinds k ∧ ((∃ t ∈ ts, t.line = l ∧ t.col = c) ∨ (k = "Unexpected end" ∧ l = 0 ∧ c = 0))
+  | _ => True
+
+theorem EPos.at {ts : List Tok} {t : Tok} {k : String} (h : t ∈ ts) (hk : sixKinds k) : EPos ts (errAt k t) :=
+  ⟨hk, Or.inl ⟨t, h, rfl, rfl⟩⟩
+
+/-- the token of a node is a token of the input -/
+def NodeIn (ts : List Tok) (n : Node) : Prop := ∀ t, n.tok = some t → t ∈ ts
+
+/-- the tokens still to be read are input tokens; the current node, if there is one, is fresh and carries an input token -/
+def Inv (ts : List Tok) (p : P) : Prop :=
+  (∀ t ∈ p.toks, t ∈ ts) ∧ ∀ n, p.node = some n → Fresh n ∧ NodeIn ts n
+/-- … and there is one -/
+def Cur (ts : List Tok) (p : P) : Prop := Inv ts p ∧ ∃ n, p.node = some n
+
+theorem Inv.fresh {ts : List Tok} {p : P} (h : Inv ts p) (n : Node) (hn : p.node = some n) : Fresh n := (h.2 n hn).1
+theorem Inv.nodeIn {ts : List Tok} {p : P} (h : Inv ts p) (n : Node) (hn : p.node = some n) : NodeIn ts n := (h.2 n hn).2
+
+variable {ts : List Tok}
+
+theorem Cur.toks {p : P} (h : Cur ts p) : ∀ t ∈ p.toks, t ∈ ts := h.1.1
+
+theorem splitComments_sub : ∀ (l : List Tok) (pre post : List Meta) (rest : List Tok),
+    splitComments l = (pre, post, rest) → ∀ t ∈ rest, t ∈ l := by
+  intro l
+  induction l with
+  | nil => intro pre post rest h; simp [splitComments] at h; simp [h]
+  | cons x xs ih =>
+    intro pre post rest h
+    rcases hs : splitComments xs with ⟨a, b, r⟩
+    have := ih a b r hs
+    simp only [splitComments, hs] at h
+    split at h
+    · simp at h; obtain ⟨_, _, rfl⟩ := h; intro t ht; exact List.mem_cons_of_mem _ (this t ht)
+    · split at h
+      · simp at h; obtain ⟨_, _, rfl⟩ := h; intro t ht; exact List.mem_cons_of_mem _ (this t ht)
+      · simp at h; obtain ⟨_, _, rfl⟩ := h; intro t ht; exact ht
 
 theorem splitComments_length : ∀ (ts : List Tok) (pre post : List Meta) (rest : List Tok),
     splitComments ts = (pre, post, rest) → rest.length ≤ ts.length := by
@@ -128,103 +166,124 @@ theorem splitComments_length : ∀ (ts : List Tok) (pre post : List Meta) (rest 
       · simp at h; obtain ⟨_, _, rfl⟩ := h; simp; omega
       · simp at h; obtain ⟨_, _, rfl⟩ := h; simp
 
-theorem nextNode_spec (p : P) :
-    Sat nextNode p (fun r p' => Fresh r.1 ∧ p'.node = p.node ∧ p'.toks.length < p.toks.length)
-      (fun e => e ≠ .panic ∧ e ≠ .fuel) := by
+theorem nextNode_spec (p : P) (hp : ∀ t ∈ p.toks, t ∈ ts) :
+    Sat nextNode p (fun r p' => Fresh r.1 ∧ NodeIn ts r.1 ∧ p'.node = p.node ∧ p'.toks.length < p.toks.length ∧
+        ∀ t ∈ p'.toks, t ∈ ts)
+      (fun e => e ≠ .panic ∧ e ≠ .fuel ∧ EPos ts e) := by
   unfold Sat
   cases hn : nextNode p with
   | ok r p' =>
     unfold nextNode at hn
     split at hn
     · simp at hn
-    · next pre post t ts hs =>
+    · next pre post t rest hs =>
       have hl := splitComments_length _ _ _ _ hs
+      have hsub := splitComments_sub _ _ _ _ hs
       split at hn
       · simp at hn
       · split at hn
         · next v hv =>
           simp at hn
           obtain ⟨rfl, rfl⟩ := hn
-          refine ⟨⟨p.braceBlock, t, pre, by simp [hv], rfl⟩, rfl, ?_⟩
-          simp at hl ⊢; omega
+          refine ⟨⟨p.braceBlock, t, pre, by simp [hv], rfl⟩, ?_, rfl, ?_, ?_⟩
+          · intro t' ht'
+            simp [instanceOf_tok] at ht'
+            subst ht'
+            exact hp _ (hsub _ (by simp))
+          · simp at hl ⊢; omega
+          · intro t' ht'; exact hp _ (hsub _ (by simp [ht']))
         · simp at hn
   | err e p' =>
     unfold nextNode at hn
-    (repeat' split at hn) <;> simp at hn <;> (obtain ⟨rfl, _⟩ := hn; simp [errAt])
+    split at hn
+    · simp at hn; obtain ⟨rfl, _⟩ := hn
+      exact ⟨by simp, by simp, by simp [sixKinds], Or.inr ⟨rfl, rfl, rfl⟩⟩
+    · next pre post t rest hs =>
+      have hsub := splitComments_sub _ _ _ _ hs
+      have hmem : t ∈ ts := hp _ (hsub _ (by simp))
+      split at hn
+      · simp at hn; obtain ⟨rfl, _⟩ := hn
+        exact ⟨by simp [errAt], by simp [errAt], EPos.at hmem (by simp [sixKinds])⟩
+      · split at hn
+        · simp at hn
+        · simp at hn; obtain ⟨rfl, _⟩ := hn
+          exact ⟨by simp [errAt], by simp [errAt], EPos.at hmem (by simp [sixKinds])⟩
 
 /-- errors of the primitive actions: parser errors only -/
-abbrev EPrim (e : Err) : Prop := e ≠ .panic ∧ e ≠ .fuel
+abbrev EPrim (ts : List Tok) (e : Err) : Prop := e ≠ .panic ∧ e ≠ .fuel ∧ EPos ts e
 /-- errors of a fuel-indexed function called with fuel `f` in state `p`: never a nil dereference, and
     not the fuel marker if the fuel covers `4·(tokens left) + c` -/
-abbrev EFuel (p : P) (c f : Nat) (e : Err) : Prop := e ≠ .panic ∧ (4 * p.toks.length + c ≤ f → e ≠ .fuel)
+abbrev EFuel (ts : List Tok) (p : P) (c f : Nat) (e : Err) : Prop :=
+  e ≠ .panic ∧ (4 * p.toks.length + c ≤ f → e ≠ .fuel) ∧ EPos ts e
 
-theorem EPrim.toFuel {p c f e} (h : EPrim e) : EFuel p c f e := ⟨h.1, fun _ => h.2⟩
+theorem EPrim.toFuel {p c f e} (h : EPrim ts e) : EFuel ts p c f e := ⟨h.1, fun _ => h.2.1, h.2.2⟩
 
-theorem advance_spec (p : P) :
-    Sat advance p (fun _ p' => Cur p' ∧ p'.toks.length < p.toks.length) EPrim := by
-  have h := nextNode_spec p
+theorem advance_spec (p : P) (hp : ∀ t ∈ p.toks, t ∈ ts) :
+    Sat advance p (fun _ p' => Cur ts p' ∧ p'.toks.length < p.toks.length) (EPrim ts) := by
+  have h := nextNode_spec p hp
   unfold Sat at *
   unfold advance
   cases hn : nextNode p with
   | ok r p' =>
     rw [hn] at h; obtain ⟨n, post⟩ := r
-    exact ⟨⟨fun m hm => by simp at hm; subst hm; exact h.1, n, rfl⟩, h.2.2⟩
+    exact ⟨⟨⟨h.2.2.2.2, fun m hm => by simp at hm; subst hm; exact ⟨h.1, h.2.1⟩⟩, n, rfl⟩, h.2.2.2.1⟩
   | err e p' => rw [hn] at h; exact h
 
-theorem cur_spec {p : P} (h : Cur p) : Sat cur p (fun n p' => p = p' ∧ p.node = some n ∧ Fresh n) EPrim := by
+theorem cur_spec {p : P} (h : Cur ts p) : Sat cur p (fun n p' => p = p' ∧ p.node = some n ∧ Fresh n ∧ NodeIn ts n) (EPrim ts) := by
   obtain ⟨hi, n, hn⟩ := h
-  unfold Sat cur; rw [hn]; exact ⟨rfl, rfl, hi n hn⟩
+  unfold Sat cur; rw [hn]; exact ⟨rfl, rfl, hi.fresh n hn, hi.nodeIn n hn⟩
 
 theorem tokOf_spec {n : Node} {t : Tok} (p : P) (h : n.tok = some t) :
-    Sat (tokOf n) p (fun a p' => p = p' ∧ a = t) EPrim := by
+    Sat (tokOf n) p (fun a p' => p = p' ∧ a = t) (EPrim ts) := by
   unfold Sat tokOf; rw [h]; exact ⟨rfl, rfl⟩
 
-theorem curId_spec {p : P} (h : Cur p) :
-    Sat curId p (fun id p' => p = p' ∧ ∃ n t, p.node = some n ∧ Fresh n ∧ n.tok = some t ∧ t.id = id) EPrim := by
+theorem curId_spec {p : P} (h : Cur ts p) :
+    Sat curId p (fun id p' => p = p' ∧ ∃ n t, p.node = some n ∧ Fresh n ∧ n.tok = some t ∧ t.id = id) (EPrim ts) := by
   unfold curId
   apply Sat.bind (cur_spec h) (fun _ h => h)
-  rintro n p' ⟨rfl, hn, hf⟩
+  rintro n p' ⟨rfl, hn, hf, hin⟩
   obtain ⟨t, ht⟩ := hf.tok
   apply Sat.bind (tokOf_spec _ ht) (fun _ h => h)
   rintro t' p'' ⟨rfl, rfl⟩
   exact Sat.pure ⟨rfl, n, t', hn, hf, ht, rfl⟩
 
-theorem skipToken_spec {p : P} (ids : List Nat) (h : Cur p) :
-    Sat (skipToken ids) p (fun _ p' => Cur p' ∧ p'.toks.length < p.toks.length) EPrim := by
+theorem skipToken_spec {p : P} (ids : List Nat) (h : Cur ts p) :
+    Sat (skipToken ids) p (fun _ p' => Cur ts p' ∧ p'.toks.length < p.toks.length) (EPrim ts) := by
   unfold skipToken
   apply Sat.bind (cur_spec h) (fun _ h => h)
-  rintro n p' ⟨rfl, hn, hf⟩
+  rintro n p' ⟨rfl, hn, hf, hin⟩
   obtain ⟨t, ht⟩ := hf.tok
   apply Sat.bind (tokOf_spec _ ht) (fun _ h => h)
   rintro t' p'' ⟨rfl, rfl⟩
   split
   · split
-    · exact Sat.throw (by simp [EPrim, errAt])
-    · exact Sat.throw (by simp [EPrim, errAt])
-  · apply Sat.bind (advance_spec _) (fun _ h => h)
+    · exact Sat.throw ⟨by simp [errAt], by simp [errAt], EPos.at (hin _ ht) (by simp [sixKinds])⟩
+    · exact Sat.throw ⟨by simp [errAt], by simp [errAt], EPos.at (hin _ ht) (by simp [sixKinds])⟩
+  · apply Sat.bind (advance_spec _ (Cur.toks (by assumption))) (fun _ h => h)
     intro _ p2 h2
     exact Sat.pure h2
 
-theorem acceptChild_spec {p : P} (id : Nat) (h : Cur p) :
-    Sat (acceptChild id) p (fun c p' => Cur p' ∧ p'.toks.length < p.toks.length ∧ Fresh c ∧
-      ∃ t, c.tok = some t ∧ t.id = id) EPrim := by
+theorem acceptChild_spec {p : P} (id : Nat) (h : Cur ts p) :
+    Sat (acceptChild id) p (fun c p' => Cur ts p' ∧ p'.toks.length < p.toks.length ∧ Fresh c ∧
+      ∃ t, c.tok = some t ∧ t.id = id) (EPrim ts) := by
   unfold acceptChild
   apply Sat.bind (Sat.getP (Q := fun a p' => a = p ∧ p' = p) ⟨rfl, rfl⟩) (fun _ h => h)
   rintro _ _ ⟨rfl, rfl⟩
-  apply Sat.bind (advance_spec _) (fun _ h => h)
+  apply Sat.bind (advance_spec _ (Cur.toks (by assumption))) (fun _ h => h)
   intro post p2 ⟨hc, hl⟩
   obtain ⟨hi, n, hn⟩ := h
   simp only [hn]
-  have hf := (hi n hn).addMeta post
+  have hf := (hi.fresh n hn).addMeta post
+  have hin : NodeIn ts (n.addMeta post) := fun t h => hi.nodeIn n hn t (by simpa using h)
   obtain ⟨t, ht⟩ := hf.tok
   apply Sat.bind (tokOf_spec _ ht) (fun _ h => h)
   rintro t' p'' ⟨rfl, rfl⟩
   split
   · next hid => exact Sat.pure ⟨hc, hl, hf, t', ht, hid⟩
-  · exact Sat.throw (by simp [EPrim, errAt])
+  · exact Sat.throw ⟨by simp [errAt], by simp [errAt], EPos.at (hin _ ht) (by simp [sixKinds])⟩
 
-theorem isNotEndAndNotTokens_spec {p : P} (ids : List Nat) (h : Cur p) :
-    Sat (isNotEndAndNotTokens ids) p (fun _ p' => p = p') EPrim := by
+theorem isNotEndAndNotTokens_spec {p : P} (ids : List Nat) (h : Cur ts p) :
+    Sat (isNotEndAndNotTokens ids) p (fun _ p' => p = p') (EPrim ts) := by
   unfold isNotEndAndNotTokens
   apply Sat.bind (Sat.getP (Q := fun a p' => a = p ∧ p' = p) ⟨rfl, rfl⟩) (fun _ h => h)
   rintro _ _ ⟨rfl, rfl⟩
@@ -232,13 +291,13 @@ theorem isNotEndAndNotTokens_spec {p : P} (ids : List Nat) (h : Cur p) :
   simp only [hn]
   split
   · exact Sat.pure rfl
-  · obtain ⟨t, ht⟩ := (hi n hn).tok
+  · obtain ⟨t, ht⟩ := (hi.fresh n hn).tok
     apply Sat.bind (tokOf_spec _ ht) (fun _ h => h)
     rintro t' p'' ⟨rfl, rfl⟩
     exact Sat.pure rfl
 
-theorem isNotEndAndToken_spec {p : P} (id : Nat) (h : Cur p) :
-    Sat (isNotEndAndToken id) p (fun _ p' => p = p') EPrim := by
+theorem isNotEndAndToken_spec {p : P} (id : Nat) (h : Cur ts p) :
+    Sat (isNotEndAndToken id) p (fun _ p' => p = p') (EPrim ts) := by
   unfold isNotEndAndToken
   apply Sat.bind (Sat.getP (Q := fun a p' => a = p ∧ p' = p) ⟨rfl, rfl⟩) (fun _ h => h)
   rintro _ _ ⟨rfl, rfl⟩
@@ -246,19 +305,19 @@ theorem isNotEndAndToken_spec {p : P} (id : Nat) (h : Cur p) :
   simp only [hn]
   split
   · exact Sat.pure rfl
-  · obtain ⟨t, ht⟩ := (hi n hn).tok
+  · obtain ⟨t, ht⟩ := (hi.fresh n hn).tok
     apply Sat.bind (tokOf_spec _ ht) (fun _ h => h)
     rintro t' p'' ⟨rfl, rfl⟩
     exact Sat.pure rfl
 
-theorem hasMoreStatements_spec {p : P} {current : Node} {ct : Tok} (hct : current.tok = some ct) (h : Cur p) :
-    Sat (hasMoreStatements current) p (fun _ p' => p = p') EPrim := by
+theorem hasMoreStatements_spec {p : P} {current : Node} {ct : Tok} (hct : current.tok = some ct) (h : Cur ts p) :
+    Sat (hasMoreStatements current) p (fun _ p' => p = p') (EPrim ts) := by
   unfold hasMoreStatements
   apply Sat.bind (Sat.getP (Q := fun a p' => a = p ∧ p' = p) ⟨rfl, rfl⟩) (fun _ h => h)
   rintro _ _ ⟨rfl, rfl⟩
   obtain ⟨hi, n, hn⟩ := h
   simp only [hn]
-  obtain ⟨t, ht⟩ := (hi n hn).tok
+  obtain ⟨t, ht⟩ := (hi.fresh n hn).tok
   apply Sat.bind (tokOf_spec _ ht) (fun _ h => h)
   rintro t' p'' ⟨rfl, rfl⟩
   split
@@ -269,20 +328,20 @@ theorem hasMoreStatements_spec {p : P} {current : Node} {ct : Tok} (hct : curren
       rintro t' p'' ⟨rfl, rfl⟩
       exact Sat.pure rfl
 
-theorem curIsNot_spec {p : P} (id : Nat) (h : Cur p) :
-    Sat (curIsNot id) p (fun _ p' => p = p') EPrim := by
+theorem curIsNot_spec {p : P} (id : Nat) (h : Cur ts p) :
+    Sat (curIsNot id) p (fun _ p' => p = p') (EPrim ts) := by
   unfold curIsNot
   apply Sat.bind (Sat.getP (Q := fun a p' => a = p ∧ p' = p) ⟨rfl, rfl⟩) (fun _ h => h)
   rintro _ _ ⟨rfl, rfl⟩
   obtain ⟨hi, n, hn⟩ := h
   simp only [hn]
-  obtain ⟨t, ht⟩ := (hi n hn).tok
+  obtain ⟨t, ht⟩ := (hi.fresh n hn).tok
   apply Sat.bind (tokOf_spec _ ht) (fun _ h => h)
   rintro t' p'' ⟨rfl, rfl⟩
   exact Sat.pure rfl
 
-theorem skipOpt_spec {p : P} (id : Nat) (h : Cur p) :
-    Sat (skipOpt id) p (fun _ p' => Cur p' ∧ p'.toks.length ≤ p.toks.length) EPrim := by
+theorem skipOpt_spec {p : P} (id : Nat) (h : Cur ts p) :
+    Sat (skipOpt id) p (fun _ p' => Cur ts p' ∧ p'.toks.length ≤ p.toks.length) (EPrim ts) := by
   unfold skipOpt
   apply Sat.bind (curId_spec h) (fun _ h => h)
   rintro id p' ⟨rfl, _⟩
@@ -290,22 +349,22 @@ theorem skipOpt_spec {p : P} (id : Nat) (h : Cur p) :
   · exact Sat.mono (skipToken_spec _ h) (fun _ h => h) (fun _ _ h => ⟨h.1, Nat.le_of_lt h.2⟩)
   · exact Sat.pure ⟨h, Nat.le_refl _⟩
 
-theorem skipComma_spec {p : P} (h : Cur p) :
-    Sat skipComma p (fun _ p' => Cur p' ∧ p'.toks.length ≤ p.toks.length) EPrim := skipOpt_spec _ h
+theorem skipComma_spec {p : P} (h : Cur ts p) :
+    Sat skipComma p (fun _ p' => Cur ts p' ∧ p'.toks.length ≤ p.toks.length) (EPrim ts) := skipOpt_spec _ h
 
 /-- `Cur` and the token list do not depend on the block-start counter -/
-theorem withBraceBlock_spec {p : P} {m : M Node} {R : Node → Prop} {E : Err → Prop} {k : Nat} (h : Cur p)
-    (hm : ∀ q, Cur q → q.toks = p.toks → Sat m q (fun a q' => Cur q' ∧ q'.toks.length < k ∧ R a) E) :
-    Sat (withBraceBlock m) p (fun a p' => Cur p' ∧ p'.toks.length < k ∧ R a) E := by
+theorem withBraceBlock_spec {p : P} {m : M Node} {R : Node → Prop} {E : Err → Prop} {k : Nat} (h : Cur ts p)
+    (hm : ∀ q, Cur ts q → q.toks = p.toks → Sat m q (fun a q' => Cur ts q' ∧ q'.toks.length < k ∧ R a) E) :
+    Sat (withBraceBlock m) p (fun a p' => Cur ts p' ∧ p'.toks.length < k ∧ R a) E := by
   unfold withBraceBlock
-  apply Sat.bind (Sat.modifyP (Q := fun _ q => Cur q ∧ q.toks = p.toks) ⟨h, rfl⟩) (fun _ h => h)
+  apply Sat.bind (Sat.modifyP (Q := fun _ q => Cur ts q ∧ q.toks = p.toks) ⟨h, rfl⟩) (fun _ h => h)
   rintro _ q ⟨hq, hqt⟩
   apply Sat.bind (E1 := fun _ => False) (Q1 := fun r q' => match r with
-      | .ok a => Cur q' ∧ q'.toks.length < k ∧ R a
+      | .ok a => Cur ts q' ∧ q'.toks.length < k ∧ R a
       | .error e => E e) _ (fun _ h => h.elim)
   · rintro r q' hr
     apply Sat.bind (Sat.modifyP (Q := fun _ q'' => match r with
-      | .ok a => Cur q'' ∧ q''.toks.length < k ∧ R a
+      | .ok a => Cur ts q'' ∧ q''.toks.length < k ∧ R a
       | .error e => E e) (by cases r <;> exact hr)) (fun _ h => h)
     rintro _ q'' hr'
     cases r with
